@@ -209,14 +209,20 @@ class Subs:
             self.d[p] = ['ok', sm, sm.ix.pkg]
 
     def relink(self, sm):
-        for e in self.d.values():
+        """_relink_phase_streams: entries of phases ``sm`` no longer has are dropped, every other entry gets ``sm``'s
+        flow data and thermal condition"""
+        labels = sm.labels()
+        for q in [q for q in self.d if q not in labels]:
+            del self.d[q]                      # streams of phases that were removed are dropped
+        for q, e in self.d.items():
             e[0] = 'ok'; e[1] = sm
 
     def relink_data(self, sm):
         """_reset_thermo: entries get this stream's new flow data, their thermal condition is untouched"""
-        for e in self.d.values():
+        labels = sm.labels()
+        for q, e in self.d.items():
             same_tc = e[1] is sm or e[1].tc is sm.tc
-            e[0] = 'ok' if same_tc else 'stale'
+            e[0] = 'ok' if (same_tc and q in labels) else 'stale'
             e[2] = sm.ix.pkg                 # _reset_thermo also sets the sub-stream's _thermo
             if same_tc:
                 e[1] = sm
